@@ -324,32 +324,32 @@ func report(c *cfg, results []*harnessResult, pkgFuncs map[string][]string, over
 		}
 	}
 	cov := map[string]any{
-		"states":                        max1(totalPaths),
-		"transitions":                   max1(totalBranches),
-		"traces_validated_against_impl": validated,
-		"samples":                       samples,
-		"exhaustive":                    exhaustive && len(machinery) == 0,
-		"functions_encoded":             kaiFuncs,
-		"functions_encoded_count":       len(kaiFuncs),
-		"bounds":                        map[string]any{"tier": c.tier, "solver_timeout_ms": c.timeoutMs, "unwind": c.unwind, "max_paths_per_harness": c.maxPaths},
-		"obligations":                   sumReached(asserts),
-		"discharged":                    sumDischarged(asserts),
-		"assertions":                    asserts,
-		"queries":                       totalQueries,
-		"solver_s":                      round2(solverS),
-		"solver_engines":                byEngine,
-		"unknowns":                      totalUnknown,
-		"paths_with_unknown_feasibility": unknownPaths,
-		"havoc_kernels":                 havocK,
-		"havoc_decisions":               havocD,
-		"fp_theory_ops":                 fpOps,
-		"path_outcomes":                 outcomes,
-		"harnesses":                     perHarness,
-		"known_findings_hit":            knownLines,
-		"machinery_errors":              machinery,
-		"load_s":                        round2(loadS),
+		"states":                           max1(totalPaths),
+		"transitions":                      max1(totalBranches),
+		"traces_validated_against_impl":    validated,
+		"samples":                          samples,
+		"exhaustive":                       exhaustive && len(machinery) == 0,
+		"functions_encoded":                kaiFuncs,
+		"functions_encoded_count":          len(kaiFuncs),
+		"bounds":                           map[string]any{"tier": c.tier, "solver_timeout_ms": c.timeoutMs, "unwind": c.unwind, "max_paths_per_harness": c.maxPaths},
+		"obligations":                      sumReached(asserts),
+		"discharged":                       sumDischarged(asserts),
+		"assertions":                       asserts,
+		"queries":                          totalQueries,
+		"solver_s":                         round2(solverS),
+		"solver_engines":                   byEngine,
+		"unknowns":                         totalUnknown,
+		"paths_with_unknown_feasibility":   unknownPaths,
+		"havoc_kernels":                    havocK,
+		"havoc_decisions":                  havocD,
+		"fp_theory_ops":                    fpOps,
+		"path_outcomes":                    outcomes,
+		"harnesses":                        perHarness,
+		"known_findings_hit":               knownLines,
+		"machinery_errors":                 machinery,
+		"load_s":                           round2(loadS),
 		"translator_validation_mismatches": mismatches,
-		"explanation": "Each harness is executed symbolically over the go/ssa of the current /repo tree; paths = feasible control-flow classes explored to exhaustion (DFS by re-execution, one z3 per worker); obligations = assertion instances decided by the solver for all values within the bounds; sampled paths and every counterexample are replayed against the natively compiled code.",
+		"explanation":                      "Each harness is executed symbolically over the go/ssa of the current /repo tree; paths = feasible control-flow classes explored to exhaustion (DFS by re-execution, one z3 per worker); obligations = assertion instances decided by the solver for all values within the bounds; sampled paths and every counterexample are replayed against the natively compiled code.",
 	}
 	ev := map[string]any{
 		"property_id": c.prop, "tier": c.tier, "seed": c.seed, "level": c.level, "coverage": cov,
